@@ -112,9 +112,10 @@ def clip_table(rep, prog, rule):
 
 def recip_table(rep, prog, rule):
     rep.rule(rule, "the reciprocal table of the portable 8-bit alpha division (a compile-time "
-             "constant read from the compiled program) holds round(255 * 2^PRECISION / a) for "
-             "a = 1..255 and 0 for a = 0 (alpha 0 gives colour 0), with PRECISION the shift that "
-             "div_and_clip applies")
+             "constant read from the compiled program) holds 0 for a = 0 (alpha 0 gives colour 0) and, for "
+             "a = 1..255, a value within 1/2 of 255 * 2^PRECISION / a (PRECISION = the shift that "
+             "div_and_clip applies): with that error budget c * entry >> PRECISION, rounded, is one "
+             "of the two neighbours of c * 255 / a for every colour c")
     st = prec = None
     for k, v in prog.statics.items():
         if k.endswith("alpha::common::RECIP_ALPHA"):
@@ -127,14 +128,23 @@ def recip_table(rep, prog, rule):
         rep.unk(rule, "table", f.loc, "table values / precision not exported")
         return
     vals = st["values"]
-    wrong = []
-    for a, v in enumerate(vals):
-        want = 0 if a == 0 else (2 * 255 * (1 << prec) + a) // (2 * a)
-        if v != want:
-            wrong.append((a, v, want))
-    if wrong:
-        a, v, want = wrong[0]
-        rep.bad(rule, "table|content", f.loc, "RECIP_ALPHA[%d] = %d, round(255 * 2^%d / %d) = %d "
-                "(%d entries differ)" % (a, v, prec, a, want, len(wrong)))
+    from fractions import Fraction
+    if vals[0] != 0:
+        rep.bad(rule, "table|zero", f.loc, "RECIP_ALPHA[0] = %d: with alpha 0 the colour becomes "
+                "(c * %d + round) >> %d, not 0" % (vals[0], vals[0], prec))
     else:
-        rep.ok(rule, "table|content", f.loc, "256 entries equal round(255 * 2^%d / a), entry 0 is 0" % prec)
+        rep.ok(rule, "table|zero", f.loc, "entry 0 is 0: alpha 0 gives colour 0")
+    worst = (Fraction(0), 0)
+    for a, v in enumerate(vals):
+        if a == 0:
+            continue
+        d = abs(Fraction(v) - Fraction(255 * (1 << prec), a))
+        if d > worst[0]:
+            worst = (d, a)
+    if worst[0] <= Fraction(1, 2):
+        rep.ok(rule, "table|content", f.loc, "every entry is within 1/2 of 255 * 2^%d / a: the "
+               "quotient c * entry >> %d stays within the two neighbours of c * 255 / a" % (prec, prec))
+    else:
+        rep.unk(rule, "table|content", f.loc, "RECIP_ALPHA[%d] deviates by %s from 255 * 2^%d / a: "
+                "outside the error budget (1/2) that guarantees a neighbouring integer for every "
+                "colour" % (worst[1], float(worst[0]), prec))
